@@ -141,7 +141,10 @@ impl<'l> PktParser<'l> {
                     domainv.push(dnspkt::Label::from(self.get_bytes(prefix as usize)?));
                 }
                 offset_high if offset_high & 0b1100_0000 == 0b1100_0000 => {
-                    if depth > 10 {
+                    /* A name has at most 127 labels and a well-formed encoder (ours included) may
+                     * spend one pointer per label, so shorter limits reject legitimate messages.
+                     */
+                    if depth > 127 {
                         return Err("Compression Corruption".into());
                     }
                     // Compressed label.
